@@ -58,17 +58,16 @@ func ParseHeader(val string) (Header, error) {
 	} else if strings.HasPrefix(val, "%") {
 		h.Name = val[1:]
 		h.Action = RenameCase
+	} else if m := headerLineRegex.FindStringSubmatch(val); m != nil {
+		// A value may end in a semicolon.
+		h.Name = m[1]
+		h.Value = &m[2]
+		h.Action = Add
 	} else if strings.HasSuffix(val, ";") {
 		h.Name = val[0 : len(val)-1]
 		h.Action = Empty
 	} else {
-		if m := headerLineRegex.FindStringSubmatch(val); m != nil {
-			h.Name = m[1]
-			h.Value = &m[2]
-			h.Action = Add
-		} else {
-			return Header{}, errors.New("invalid header value")
-		}
+		return Header{}, errors.New("invalid header value")
 	}
 
 	if !headerNameRegex.MatchString(h.Name) {
